@@ -38,7 +38,7 @@ TABLE = {
     (f'{V}.identities.XsdIdentity.update_elements', 'ref'):
         ('monotone', 'same set.add reached through `e = e.ref`'),
     (f'{V}.elements.XsdElement.get_binding', 'binding'):
-        ('memo', 'lazy creation of the data binding class, idempotent'),
+        ('memo', 'lazy creation of the data binding class: one class object, created under _binding_lock with a re-check (C18.i)'),
     (f'{V}.elements.XsdElement._set_type', '*'):
         ('fresh-receiver', 'only called on the fresh copy made by collect_key_fields (receiver checked at every call site)'),
     (f'{V}.builders.XsdBuilders.create_any_type', 'maps'):
